@@ -33,6 +33,8 @@ def run_seq(seq):
     code = '; '.join(ENTRY[i] for i in seq) + '; ' + PROBE
     env = dict(os.environ)
     env.pop('PYTHONPATH', None)
+    if os.environ.get('SOUPVERIF_REPO'):        # isolated-copy mode: the fresh interpreter must import that tree too
+        env['PYTHONPATH'] = os.environ['SOUPVERIF_REPO']
     p = subprocess.run(['/venv/bin/python', '-W', 'error', '-c', code], stdout=subprocess.PIPE, stderr=subprocess.PIPE, cwd='/tmp',
                        env=env, timeout=120)
     out = p.stdout.decode()
